@@ -19,7 +19,7 @@ package c39
 //              | 'o' v                      put v
 //              | 'u' m                      use m<m> g<G>m<m>      file module, under a name private to the goroutine
 //              | 'b' m                      use bm<m> g<G>bm<m>    bundled module
-//              | 's'                        use str g<G>str
+//              | 's'                        use str g<G>str   (odd G: use builtin g<G>str)
 //              | 'g' m                      put [<100+m> $g<G>m<m>:x]   (module must be imported in scope; tagged with the expected value)
 //              | 'h' m                      put [<200+m> $g<G>bm<m>:x]
 //              | 'v' n '.' k                var g<G>_<n> = k   (G = goroutine index: private name)
@@ -178,7 +178,13 @@ func Render(ss []Stmt, g int) string {
 		case 'b':
 			parts = append(parts, fmt.Sprintf("use bm%d g%dbm%d", s.A, g, s.A))
 		case 's':
-			parts = append(parts, fmt.Sprintf("use str g%dstr", g))
+			// odd goroutines import the pre-loaded module `builtin` instead: the
+			// same effect on the namespace, another path through the module table
+			if g%2 == 1 {
+				parts = append(parts, fmt.Sprintf("use builtin g%dstr", g))
+			} else {
+				parts = append(parts, fmt.Sprintf("use str g%dstr", g))
+			}
 		case 'g':
 			parts = append(parts, fmt.Sprintf("put [%d $g%dm%d:x]", ModX(false, s.A), g, s.A))
 		case 'h':
